@@ -37,7 +37,7 @@ def mutate_obs(r, obs):
     except tf.DecodeError:
         spans = []
     ops = ["flip", "truncate", "nibble", "jumboflag", "jumbosize", "resize-payload", "zero-page", "dup-block", "swap-block",
-           "no-nul", "insert-garbage", "random-file", "empty"]
+           "no-nul", "long-label", "ou-region", "insert-garbage", "random-file", "empty"]
     k = r.choice(ops)
     b = bytearray(obs)
     if k == "flip" and b:
@@ -90,6 +90,17 @@ def mutate_obs(r, obs):
         mcv = r.choice(["VYc", "6Yc"])
         lab = b"L" * r.choice([0, 1, 7, 60])
         b.extend(tf.enc(mcv, spans[-1][2].clock, b"", struct.pack("<I", 9) + lab))
+    elif k == "long-label" and spans:
+        # a properly terminated but very long task-type label
+        mcv = r.choice(["VYc", "6Yc"])
+        lab = b"L" * r.choice([500, 900, 1000, 1023, 1024, 1100, 5000, 70000])
+        b.extend(tf.enc(mcv, spans[-1][2].clock, b"", struct.pack("<I", 9) + lab + b"\0"))
+    elif k == "ou-region" and spans:
+        # an unsorted region whose content belongs to the very beginning of the stream (or far back)
+        off, n, e = r.choice(spans[:3] if r.chance(60) else spans)
+        early = r.choice([0, 1, max(0, e.clock - 1), max(0, e.clock - 10 ** 6)])
+        region = tf.enc("OU[", e.clock) + tf.enc("OB.", early, r.bytes(8)) + (tf.enc("OB.", early + 1) if r.chance(50) else b"") + tf.enc("OU]", e.clock)
+        b[off:off] = region
     elif k == "insert-garbage":
         i = r.below(len(b) + 1)
         b[i:i] = r.bytes(r.choice([1, 3, 12, 40]))
